@@ -162,9 +162,10 @@ def run(rep, tier, scratch, only=None):
         cases = table.run_table(rep, 'Paths', name, table.cfg(c, LAWS), scratch)
         for e in cases:
             if e['kind'] == 'tree':
-                check_tree(rep, e)
+                rep.guard(check_tree, rep, e, what='tree case', detail=e.get('tree'))
             else:
-                check_dict(rep, e)
+                rep.guard(check_dict, rep, e, what='dictionary case',
+                          detail=[e.get('dn'), e.get('lf')])
         rep.traces += len(cases)
         if cases:
             t = [e for e in cases if e['kind'] == 'tree'][-1]
